@@ -257,9 +257,13 @@ BAD_SCHEMA = {
     "relative_file_ref": {"$ref": "common.json#/components/schemas/<existing>"},
     "invalid_default": {"type": "integer", "default": "abc"},
     "mixed_enum": {"enum": [1, "a"]},
+    # pieces whose error VALUE carries a header but no detail (detail=None): "Unsupported enum type <class 'float'>" / <class 'bool'>
+    "float_enum": {"type": "number", "enum": [0.5, 1.5]},
+    "bool_enum": {"enum": [True, False]},
 }
 SCHEMA_POS = ["prop", "item", "union", "addl", "allof"]
-OP_POS = ["param", "body", "response", "optional_path", "dup_params", "unparseable_body", "param_file_ref"]
+OP_POS = ["param", "body", "body_prop", "body_items", "body_two_media", "response", "optional_path", "dup_params", "unparseable_body", "param_file_ref"]
+PIECE_OP_POS = ("param", "body", "body_prop", "body_items", "body_two_media", "response")
 
 
 def object_body(schema):
@@ -387,6 +391,19 @@ def insert(doc, pos, piece_name, tag="zz_bad"):
         if "requestBody" in op:
             return None
         op["requestBody"] = {"content": {"application/json": {"schema": b}}}
+    elif p == "body_prop":          # an inline property of an inline request-body object
+        if "requestBody" in op:
+            return None
+        op["requestBody"] = {"content": {"application/json": {"schema": {"type": "object", "properties": {"ok": {"type": "string"}, tag: b}}}}}
+    elif p == "body_items":         # the items of an array body
+        if "requestBody" in op:
+            return None
+        op["requestBody"] = {"content": {"application/json": {"schema": {"type": "array", "items": b}}}}
+    elif p == "body_two_media":     # every media type of the body is unparseable, for different reasons
+        if "requestBody" in op:
+            return None
+        op["requestBody"] = {"content": {"application/json": {"schema": b}, "application/xml": {"schema": {"type": "string"}},
+                                         "multipart/form-data": {"schema": {"type": "object", "properties": {tag: b}}}}}
     elif p == "response":
         op["responses"]["418"] = {"description": "bad", "content": {"application/json": {"schema": b}}}
     elif p == "optional_path":
@@ -725,21 +742,29 @@ def stage_c(run, tier, rng, replay_cases=None):
         for label, (doc, files, nd) in base.items():
             full = (tier != "quick" and not label.startswith("gen"))
             for pos in positions(doc):
-                needs_piece = (pos[0] == "schema" and pos[2] in SCHEMA_POS) or (pos[0] == "op" and pos[3] in ("param", "body", "response")) or pos[0] == "pathitem"
+                needs_piece = (pos[0] == "schema" and pos[2] in SCHEMA_POS) or (pos[0] == "op" and pos[3] in PIECE_OP_POS) or pos[0] == "pathitem"
                 if not needs_piece:
                     pcs = ["n/a"]
-                elif full or (label in ("chain", "union") and (pos[-1] == "prop" or pos[0] == "pathitem")):
+                elif full or (label in ("chain", "union") and (pos[-1] == "prop" or pos[0] == "pathitem" or pos[-1].startswith("body"))):
                     pcs = pieces
                 else:
                     pcs = [pieces[k % len(pieces)]]; k += 1
                 for pc in pcs:
+                    if insert(doc, pos, pc) is None:
+                        continue        # not applicable here (e.g. a body position on an operation that already has a body)
                     jobs.append((label, doc, files, [(pos, pc)], rng.randrange(1 << 30)))
-        if tier == "quick" and len(jobs) > 560:
-            # budget: keep the hand-made and atlas documents and every override case; thin out the generated documents
-            keep = [j for j in jobs if not j[0].startswith("gen") or j[3][0][0][-1] == "override_param"]
-            rest = [j for j in jobs if j[0].startswith("gen") and j[3][0][0][-1] != "override_param"]
-            rng.shuffle(rest)
-            jobs = keep + rest[:max(0, 560 - len(keep))]
+        if tier == "quick":
+            # budget (about 600 cases): always keep every body-position and every override case of the hand-made documents (the detail-less
+            # error pieces at the request body are covered deterministically), thin out the rest, and leave room for the generated documents
+            def must(j):
+                ps = j[3][0][0]
+                return ps[-1] == "override_param" or (not j[0].startswith("gen") and ps[0] == "op" and ps[-1].startswith("body"))
+            core = [j for j in jobs if must(j)]
+            hand = [j for j in jobs if not must(j) and not j[0].startswith("gen")]
+            gen = [j for j in jobs if not must(j) and j[0].startswith("gen")]
+            rng.shuffle(hand); rng.shuffle(gen)
+            room = max(0, 600 - len(core))
+            jobs = core + hand[:room * 3 // 5] + gen[:room - min(len(hand), room * 3 // 5)]
         if tier != "quick":
             labels = list(base)
             for _ in range(600):            # pairs of insertions
@@ -750,7 +775,7 @@ def stage_c(run, tier, rng, replay_cases=None):
                 if a[0] in ("op", "pathitem") and b2[0] in ("op", "pathitem") and a[1] == b2[1]:
                     continue
                 def pc_for(pos):
-                    return rng.choice(pieces) if ((pos[0] == "schema" and pos[2] in SCHEMA_POS) or (pos[0] == "op" and pos[3] in ("param", "body", "response")) or pos[0] == "pathitem") else "n/a"
+                    return rng.choice(pieces) if ((pos[0] == "schema" and pos[2] in SCHEMA_POS) or (pos[0] == "op" and pos[3] in PIECE_OP_POS) or pos[0] == "pathitem") else "n/a"
                 jobs.append((label, doc, files, [(a, pc_for(a)), (b2, pc_for(b2))], rng.randrange(1 << 30)))
     print("stage C: %d base documents, %d (D, b, position) cases" % (len(base), len(jobs)))
     results = []
